@@ -215,9 +215,15 @@ def to_model_ops(comps, executed):
             return 99
     ops, idx = [], []
     names = {}
+    # the pins' own names share one id space with the names the user maps by hand (raise-all exposes a pin under its own name)
+    for c in comps:
+        for p in c["pins"]:
+            names.setdefault(p, len(names))
     for k, e in enumerate(executed):
         kind = e[0]
-        if kind in ("add", "readd"):
+        if kind == "raise":
+            ops.append(["raise"]); idx.append(k)
+        elif kind in ("add", "readd"):
             ops.append(["add", e[1]]); idx.append(k)
         elif kind == "connect":
             ops.append(["connect", e[1], pid(e[1], e[2]), e[3], pid(e[3], e[4])]); idx.append(k)
@@ -246,7 +252,7 @@ def to_model_ops(comps, executed):
                 ops.append(["connect", e[2], pid(e[2], e[3]), 99, 0]); idx.append(k)
             elif sub == "duplicate-add":
                 ops.append(["add", e[2]]); idx.append(k)
-        # raise / solve / complete do not change the modelled tables except pin_mapping (not compared then)
+        # solve / complete do not change the modelled tables
     return ops, idx, names
 
 
@@ -259,6 +265,7 @@ def canon_real(snap, comps, names):
         "connections": sorted(tuple(sorted((pid(a), pid(b)))) for a, b in snap["connections"]),
         "connections_list": sorted(pid(x) for x in snap["connections_list"]),
         "free_pins": sorted(pid(x) for x in snap["free_pins"]),
+        "pin_mapping": sorted((names.get(n, n), pid(t)) for n, t in snap["pin_mapping"]),
         "st": [{"pin_list": sorted(pid(x)[1] for x in st["pin_list"]),
                 "conn_dict": sorted((pid(a)[1], pid(b)) for a, b in st["conn_dict"]),
                 "connected_to": sorted(st["connected_to"])} for st in snap["st"]],
@@ -272,6 +279,7 @@ def canon_model(state):
         "connections": sorted(tuple(sorted((t(a), t(b)))) for a, b in state["connections"]),
         "connections_list": sorted(t(x) for x in state["connections_list"]),
         "free_pins": sorted(t(x) for x in state["free_pins"]),
+        "pin_mapping": sorted((n, t(x)) for n, x in state["pin_mapping"]),
         "st": [{"pin_list": sorted(st["pin_list"]), "conn_dict": sorted((a, t(b)) for a, b in st["conn_dict"]),
                 "connected_to": sorted(st["connected_to"])} for st in state["st"]],
     }
@@ -282,7 +290,8 @@ def model_compare(ctx, comps, executed, snaps, name, replay):
     ops, idx, names = to_model_ops(comps, executed)
     if not ops:
         return
-    ans = ctx.driver.ask({"op": "wiring", "pins": [len(c["pins"]) for c in comps], "ops": ops})
+    ans = ctx.driver.ask({"op": "wiring", "pins": [len(c["pins"]) for c in comps], "ops": ops,
+                          "names": [[names[p] for p in c["pins"]] for c in comps]})
     if "steps" not in ans:
         ctx.disagreement(name, f"model: {ans}", replay)
         return
